@@ -51,7 +51,11 @@ def _params(name: str, nbits: int, C: int, N: int, tier: str):
     if name == "mask":
         ms = [[int(b) for b in f"{i:04b}"] + [0] * (C - 4) for i in range(16)]
         ms += [[1] * C, [0, 1] * (C // 2), [0] * (C - 1) + [1]]
-        return [[m, v] for m in ms for v in ([0, 1] if nbits <= 2 else [0, 3])]
+        vals = [0, 1] if nbits <= 2 else [0, 3]
+        out = [[m, v] for m in ms for v in vals]
+        # larger fill values on a few masks: the value is cast to the file's sample type
+        out += [[ms[5], 250], [ms[-2], 200]] if nbits == 8 else [[ms[5], -2.5], [ms[-2], 1e6]] if nbits == 32 else [[ms[5], 15]] if nbits == 4 else []
+        return out
     if name == "extract_chans":
         # [channel list, batch_size]; small batch sizes exercise the second and later batches
         lists = [[0], [C - 1], [2, 5], [5, 2], None, [3, 3]]
